@@ -28,6 +28,7 @@ func checkC13(c *Ctx) {
 	c.headOnlyRelease()
 	c.growRules()
 	c.queueRelayoutInBounds()
+	c.queueHandsOutOnlyRemovedEntries()
 	c.occupancyByCount()
 	// the private copies are sized with msg.Len(): header length thresholds and Len ordering
 	c.typeTables()
